@@ -55,15 +55,21 @@ def spline_scenarios(tier, what):
                     out.append("spline n=%d bc=Individual=Mixed:%s:%s extrap=1 seed=%d" % (n, l, r, (n + li + 2 * ri) % 7))
                     if tier == "thorough" and n <= 6:
                         out.append("spline n=%d lanes=2 bc=Individual=Mixed:%s:%s|Mixed:%s:%s extrap=1 seed=%d off=%s" % (n, l, r, r, l, (n + 3 * li + ri) % 9, "-17.75" if (li + ri) % 2 else "250.5"))
+    if what in ("pairs", "all") and tier == "quick":
+        for (l, r, sd) in (("NotAKnot", "NotAKnot", 1), ("NotAKnot", "SecondDeriv", 2), ("FirstDeriv", "NotAKnot", 3), ("SecondDeriv", "FirstDeriv", 4), ("Natural", "Clamped", 5)):
+            out.append("spline n=9 bc=Individual=Mixed:%s:%s extrap=1 seed=%d" % (l, r, sd))
     if what in ("whole", "all"):
-        for n in ns:
+        for n in ns + ([8, 11] if tier == "quick" else [11, 14]):
             for bc in ("NotAKnot", "Natural", "Clamped", "Periodic"):
                 out.append("spline n=%d bc=%s extrap=1 seed=%d" % (n, bc, n % 5))
                 out.append("spline n=%d bc=%s extrap=0 seed=%d" % (n, bc, (n + 1) % 5))
     if what in ("lanes", "all"):
         indiv = "Individual=Natural|Mixed:NotAKnot:FirstDeriv|Mixed:SecondDeriv:Clamped|NotAKnot"
-        for n in ([3, 4, 5] if tier == "quick" else [3, 4, 5, 6]):
+        for n in ([3, 4, 5, 9] if tier == "quick" else [3, 4, 5, 6, 9, 12]):
             out.append("spline n=%d lanes=2 bc=%s extrap=1 seed=1" % (n, indiv))
+            if n >= 9:
+                out.append("spline n=%d lanes=2x2x2 bc=%s extrap=1 seed=3" % (n, indiv))
+                out.append("spline n=%d lanes=3x1x2 bc=NotAKnot extrap=0 seed=5 dyn=1" % n)
             out.append("spline n=%d lanes=2x2 bc=%s extrap=1 seed=2" % (n, indiv))
             out.append("spline n=%d lanes=1 bc=NotAKnot extrap=1 seed=3" % n)
             out.append("spline n=%d lanes=3x2 bc=%s extrap=1 seed=4 dyn=1" % (n, indiv))
@@ -74,14 +80,24 @@ def spline_scenarios(tier, what):
             out.append("spline n=%d lanes=2 bc=Individual=Natural|Natural extrap=0 seed=4" % n)
             out.append("spline n=%d lanes=2 bc=Natural extrap=1 seed=6 layout=f" % n)
             out.append("spline n=%d bc=NotAKnot extrap=1 seed=1 gapset=mean" % n)
+            out.append("spline n=%d bc=Default extrap=1 seed=2" % n)
+            out.append("spline n=%d lanes=2 bc=Individual=Mixed:FirstDeriv:SecondDeriv|Mixed:SecondDeriv:FirstDeriv extrap=1 seed=3 const=1" % n)
+            out.append("spline n=%d lanes=2x3 bc=Individual=Natural|Natural|Natural|Mixed:NotAKnot:FirstDeriv|Mixed:NotAKnot:FirstDeriv|Mixed:NotAKnot:FirstDeriv extrap=1 seed=2" % n)
+            out.append("spline n=%d lanes=2x3 bc=Individual=Natural|Mixed:NotAKnot:FirstDeriv|Clamped|Mixed:SecondDeriv:Natural|NotAKnot|Mixed:FirstDeriv:Clamped extrap=1 seed=4 blayout=f" % n)
+            out.append("spline n=%d lanes=3x1 bc=Individual=Natural|Mixed:FirstDeriv:NotAKnot|Clamped extrap=1 seed=1" % n)
+            out.append("spline n=%d lanes=2x1x3 bc=%s extrap=0 seed=5 dyn=1" % (n, indiv))
+            if n >= 5:
+                out.append("spline n=%d bc=NotAKnot extrap=1 gapset=endsmean" % n)
+                out.append("spline n=%d lanes=2 bc=Natural extrap=0 gapset=endsmean off=2.5" % n)
+                out.append("spline n=%d bc=NotAKnot extrap=1 seed=2 xscale=1e-12" % n)
             out.append("spline n=%d bc=Natural extrap=0 seed=2 gapset=uniform" % n)
             out.append("spline n=%d lanes=2 bc=Clamped extrap=1 seed=3 gapset=palindrome" % n)
             out.append("spline n=%d bc=Periodic extrap=1 seed=2 gapset=mean" % n)
             out.append("spline n=%d bc=NotAKnot extrap=1 seed=4 xlayout=rev" % n)
             out.append("spline n=%d lanes=2 bc=Natural extrap=1 seed=1 xscale=1e-9 off=3" % n)
     if what == "linear":
-        for n in ([2, 3, 5] if tier == "quick" else [2, 3, 4, 5, 7, 9]):
-            for lanes, dyn in (("", 0), ("2", 0), ("2x2", 0), ("3", 1)):
+        for n in ([2, 3, 5, 9, 17] if tier == "quick" else [2, 3, 4, 5, 7, 9, 17, 33]):
+            for lanes, dyn in (("", 0), ("2", 0), ("2x2", 0), ("3", 1)) if n <= 9 else (("", 0), ("2x1x2", 0)):
                 for ex in (0, 1):
                     out.append("linear n=%d lanes=%s extrap=%d seed=%d dyn=%d" % (n, lanes, ex, (n + ex) % 6, dyn))
             out.append("linear n=%d lanes=2 extrap=1 seed=2 layout=f" % n)
@@ -91,9 +107,11 @@ def spline_scenarios(tier, what):
             out.append("linear n=%d extrap=1 seed=2 xscale=1e18 off=7" % n)
             out.append("linear n=%d lanes=2 extrap=1 seed=4 gapset=uniform" % n)
             out.append("linear n=%d extrap=1 seed=1 gapset=mean" % n)
+            if n >= 5:
+                out.append("linear n=%d lanes=2 extrap=1 gapset=endsmean" % n)
             out.append("linear n=%d lanes=2 extrap=1 seed=2 xlayout=rev" % n)
     if what == "bilinear":
-        for nx, ny in ([(2, 2), (3, 2), (2, 4), (3, 5), (4, 3)] if tier == "quick" else [(2, 2), (3, 2), (2, 4), (3, 5), (4, 3), (5, 5), (6, 2)]):
+        for nx, ny in ([(2, 2), (3, 2), (2, 4), (3, 5), (4, 3), (9, 3)] if tier == "quick" else [(2, 2), (3, 2), (2, 4), (3, 5), (4, 3), (5, 5), (6, 2), (9, 3), (3, 12)]):
             for lanes in (1, 2):
                 for ex in (0, 1):
                     out.append("bilinear nx=%d ny=%d lanes=%d extrap=%d seed=%d" % (nx, ny, lanes, ex, (nx + ny) % 5))
@@ -117,6 +135,7 @@ def entry_scenarios(tier, what):
     if what == "entry1d":
         combos = [("3", "3", 0, 0), ("3", "", 0, 0), ("3x2", "3", 0, 0), ("3x2", "", 0, 0), ("3x2", "2x2", 0, 0), ("3", "2x2", 0, 0), ("3x2x2", "2", 0, 0),
                   ("3x2x2", "2", 0, 1), ("3x2", "2", 0, 1), ("3", "2", 0, 1), ("3x2", "2", 1, 0), ("3x2x2", "2x3", 1, 1), ("3x2", "2", 1, 1), ("3", "", 0, 1),
+                  ("9x2", "5", 0, 0), ("3x2x3", "1x1", 0, 0), ("3x2x3", "1x1", 0, 1), ("3x4x8", "2", 0, 0), ("3x2", "6x6", 0, 0), ("3x2", "2x2x2", 0, 0), ("3x2x2x2", "2", 0, 0), ("3x2", "2x1x2", 0, 0), ("4x2x1x3", "2x2", 1, 1), ("3x2x1x2x1", "2", 0, 0),
                   ("3x2", "0", 0, 0), ("3x0", "2", 0, 0), ("3x2x3", "2", 0, 0), ("3x2x3", "2", 0, 1), ("4x1", "2", 0, 0), ("4x3x1", "2", 0, 0), ("4x3", "2", 1, 0)]
         if tier == "thorough":
             combos += [("3x2x2", "2x2", 0, 0), ("3x2", "2x1x2", 0, 0), ("3", "2x1x2", 0, 0), ("3x2x1x2", "2", 0, 0), ("3x2x1x2", "2x1x2x1", 0, 0), ("3x2", "2x2", 1, 0),
@@ -128,7 +147,7 @@ def entry_scenarios(tier, what):
                 out.append("entry1d data=%s q=%s ddyn=%d qdyn=%d strat=%s" % (d, q, dd, qd, st))
     if what == "entry2d":
         combos = [("3x3", "2", 0, 0), ("3x3", "", 0, 0), ("3x2x2", "2", 0, 0), ("3x3", "2x2", 0, 0), ("3x2x2", "2x2", 0, 0), ("3x2x2", "2", 1, 0), ("3x2x2", "2", 1, 1),
-                  ("3x2x2", "2x2", 0, 1), ("3x3", "2", 0, 1), ("3x3", "0", 0, 0), ("3x2x2", "0", 0, 0), ("3x2x2x3", "2", 0, 0), ("3x2x1", "2", 0, 0)]
+                  ("3x2x2", "2x2", 0, 1), ("3x3", "2", 0, 1), ("3x3", "0", 0, 0), ("3x2x2", "0", 0, 0), ("3x2x2x3", "2", 0, 0), ("3x2x1", "2", 0, 0), ("3x3x0", "2x2", 0, 0), ("3x3x0", "", 0, 0), ("3x3x0", "2", 1, 1), ("3x3", "6x6", 0, 0)]
         if tier == "thorough":
             combos += [("3x2x2x2", "2", 0, 0), ("3x2x2x2", "2x2", 0, 0), ("3x2x2", "", 1, 1), ("3x3", "2x1", 0, 1)]
         for d, q, dd, qd in combos:
@@ -148,16 +167,19 @@ def entry_scenarios(tier, what):
     if what == "builder":
         out += ["builder"]
     if what == "lanes":
-        for n in ([3, 4, 5] if tier == "quick" else [3, 4, 5, 6, 7]):
-            for lanes in ("2", "2x2", "1", "3x2", "1x3"):
+        for n in ([3, 4, 5, 9] if tier == "quick" else [3, 4, 5, 6, 7, 9, 13]):
+            for lanes in ("2", "2x2", "1", "3x2", "1x3", "2x2x2", "3x1", "2x3x1", "2x1x3"):
                 for st in ("linear", "spline", "bilinear"):
                     out.append("lanes n=%d lanes=%s strat=%s" % (n, lanes, st))
+                if lanes in ("2x3x1", "3x2"):
+                    out.append("lanes n=%d lanes=%s strat=spline bcset=rows" % (n, lanes))
+                    out.append("lanes n=%d lanes=%s strat=spline bcset=varied blayout=f" % (n, lanes))
                 if lanes in ("2", "2x2", "3x2"):
                     out.append("lanes n=%d lanes=%s strat=spline bcset=mixed" % (n, lanes))
                     out.append("lanes n=%d lanes=%s strat=spline bcset=samekind" % (n, lanes))
         out += ["lanes n=3 lanes=0 strat=linear", "lanes n=4 lanes=2x0 strat=linear"]
     if what == "layouts":
-        for n in ([5, 6] if tier == "quick" else [4, 5, 6, 8]):
+        for n in ([5, 6, 17] if tier == "quick" else [4, 5, 6, 8, 17, 40]):
             for lanes in ("", "3", "2x3", "2x3x2"):
                 for st in ("linear", "spline", "bilinear"):
                     out.append("layouts n=%d lanes=%s strat=%s" % (n, lanes, st))
@@ -194,6 +216,9 @@ def run(repo, cfg, pid, tier, seed, build):
                 d = json.loads(r)
             except Exception:
                 o["undecided"].append("unparsable runner record")
+                continue
+            if d.get("result") == "harness-panic":
+                o["undecided"].append("scenario harness panicked outside the code under test: %s" % d["scenario"])
                 continue
             if d.get("result") != "ok":
                 o["obligations"] += 1
